@@ -114,6 +114,7 @@ type Path struct {
 	tickers       []*Chan
 	deadlockLabel string
 	shortReads    bool
+	yieldAtDB     bool // Pebble DB-handle operations are scheduling points
 	sstCuts       bool // sstable.Writer.EstimatedSize returns arbitrary non-decreasing values
 	curFr         *frame
 	pc            []*Term
